@@ -16,7 +16,7 @@ ANCHORED = ["_AdversarialFairness.fit", "_AdversarialFairness.partial_fit", "_Ad
             "FloatTransformer.inverse_transform", "PytorchEngine.train_step"]
 RULE = ("random cases: n in 1..25 rows whose first feature column is the row id, batch_size in {-1, 1..n+3}, epochs in 1..3 (or -1 "
         "with max_iter), max_iter in {-1, 1..8} (set as attribute), 1..2 callbacks with a stop step in {none, 1..6}, SGD or Adam, "
-        "classifier (binary/multiclass, int and string labels) and regressor, PyTorch backend, shuffle=False; in a quarter of the cases a "
+        "classifier (binary/multiclass, int and string labels, binary encodings {0,1},{3,7},{1,2},{1,5}; sensitive feature in {0,1},{1,2},{1,5},{2,9}) and regressor, PyTorch backend, shuffle=False; in a quarter of the cases a "
         "second, warm-started fit() follows on the same estimator and its trace is checked as well. Monitors: a recording "
         "predictor module logs the row ids of every training batch, recording callbacks log (step, n_iter_); the trace is checked "
         "offline against the documented schedule (consecutive slices, step count, callback numbering, no callback after the step that "
@@ -78,7 +78,7 @@ def run_case(cls, key, seed, ctx):
     from fairlearn.adversarial import AdversarialFairnessClassifier, AdversarialFairnessRegressor
 
     rng = rng_for(seed, ID, cls, key)
-    kind = gen.pick(rng, ["binary_int", "binary_str", "binary_int37", "multiclass_int", "multiclass_str", "regression"])
+    kind = gen.pick(rng, ["binary_int", "binary_str", "binary_int37", "binary_int12", "binary_int15", "multiclass_int", "multiclass_str", "regression"])
     n = int(rng.integers(1, 26))
     if kind.startswith("multiclass"):
         n = max(n, 3)
@@ -90,7 +90,7 @@ def run_case(cls, key, seed, ctx):
     # ---- labels: the first slice must contain every class; multiclass: every slice has >= 3 classes
     first = min(beff, n)
     if kind.startswith("binary"):
-        classes = {"binary_int": [0, 1], "binary_str": ["no", "yes"], "binary_int37": [3, 7]}[kind]
+        classes = {"binary_int": [0, 1], "binary_str": ["no", "yes"], "binary_int37": [3, 7], "binary_int12": [1, 2], "binary_int15": [1, 5]}[kind]
         if first < 2:
             classes = classes[:1] if n < 2 else classes
         yi = rng.integers(0, len(classes), size=n)
@@ -111,6 +111,10 @@ def run_case(cls, key, seed, ctx):
     a = rng.integers(0, 2, size=n)
     if first >= 2:
         a[0], a[1] = 0, 1
+    # ... in one of several encodings (a slice that holds a single value of {1,2} must still be encoded like the whole column)
+    a_enc = gen.pick(rng, [None, None, [1, 2], [1, 5], [2, 9]])
+    if a_enc is not None:
+        a = np.asarray([a_enc[int(v)] for v in a])
     ids = np.arange(n, dtype=float)
     d = int(rng.integers(2, 5))
     F = rng.normal(size=(n, d - 1)).round(3)
